@@ -28,7 +28,30 @@ const (
 	fAnyImport     = "F43-proto-any-import-missing"
 	fSingletonEnum = "F44-proto-singleton-enum-union-undefined"
 	fDottedPkg     = "F45-proto-dotted-package-enum-file"
+	fEnumCase      = "F46-proto-enum-case-conflict"
+	fNegativeEnum  = "F47-proto-negative-enum-value-first"
+	fEnumNameDup   = "F48-proto-enum-value-names-not-unique"
+	fJSONName      = "F49-proto-field-json-name-conflict"
+	fPkgMsgClash   = "F50-proto-package-equals-message-name"
+	fTypeVsField   = "F51-proto-nested-type-vs-field-name"
+	fRootList      = "F52-proto-fakeroot-toplevel-list-reference"
+	fKeyEnumImport = "F53-proto-enum-list-key-import-missing"
+	fDecimalImport = "F54-proto-union-decimal64-spurious-enums-import"
+	fRootPkgUnique = "F55-proto-compress-hierarchy-second-module-root-package"
 )
+
+// c28ExcludedClasses are the yanggen collision classes that are not drawn in C28 because a known
+// finding covers the whole class (the would-be draws are counted in the evidence).
+var c28ExcludedClasses = map[string]bool{
+	yanggen.ClEnumCase:       true, // F46
+	yanggen.ClEnumSanitise:   true, // F48
+	yanggen.ClIdentSanitise:  true, // F48
+	yanggen.ClEnumUNSET:      true, // F48
+	yanggen.ClIdentSameName:  true, // F48
+	yanggen.ClDashUnderscore: true, // F49
+	yanggen.ClCamelSiblings:  true, // F49, F51
+	yanggen.ClKeyCamel:       true, // F49
+}
 
 // protoc decides these by the first token of a message statement (parser.cc
 // ParseMessageStatement / ParseType / ParseLabel), so a type reference that starts with one of
@@ -37,7 +60,7 @@ var protoLeadKeywords = regexp.MustCompile(`^\s*(repeated\s+)?(message|enum|oneo
 
 var posRE = regexp.MustCompile(`^(.*?\.proto):(\d+):(\d+): `)
 
-// problemLine returns the source line a parse/link problem points at.
+// problemLine returns the file (output-relative) and the source line a parse/link problem points at.
 func problemLine(po *protoOut, p problem) (file string, line string) {
 	m := posRE.FindStringSubmatch(p.Msg)
 	if m == nil {
@@ -51,62 +74,128 @@ func problemLine(po *protoOut, p problem) (file string, line string) {
 			if n >= 1 && n <= len(ls) {
 				return rel, ls[n-1]
 			}
+			return rel, ""
 		}
 	}
 	return "", ""
 }
 
-// relOf returns the output-relative name of the file a problem is about.
-func relOf(po *protoOut, p problem) string {
-	for rel, imp := range po.ImportName {
-		if strings.HasPrefix(p.Msg, imp+":") {
-			return rel
-		}
-	}
-	return ""
+var (
+	singletonEnumRE = regexp.MustCompile(`^\s*([A-Za-z0-9_]+Enum) ([a-z0-9_A-Z]+) = \d+`)
+	quotedRE        = regexp.MustCompile(`"([^"]*)"`)
+	plainFieldRE    = regexp.MustCompile(`^\s*([A-Za-z0-9_.]+) ([A-Za-z0-9_]+) = (\d+)`)
+	negFirstRE      = regexp.MustCompile(`must be zero in proto3, have \S+ = -\d+`)
+)
+
+// underscorePkgDefines reports whether the output has a package "<base>._" (MakeNameUnique of
+// the empty package name) that defines message typ.
+func underscorePkgDefines(po *protoOut, f protoFlags, typ string) bool {
+	rel := filepath.Join(strings.ReplaceAll(f.PackageName, ".", "/"), "_", "_.proto")
+	raw, ok := po.Raw[rel]
+	return ok && strings.Contains(raw, "package "+f.PackageName+"._;") && strings.Contains(raw, "\nmessage "+typ+" {")
 }
 
-var singletonEnumRE = regexp.MustCompile(`^\s*([A-Za-z0-9_]+Enum) ([a-z0-9_A-Z]+) = \d+`)
+func lastComponent(s string) string {
+	if i := strings.LastIndexByte(s, '.'); i >= 0 {
+		return s[i+1:]
+	}
+	return s
+}
 
-// excused reports whether problem p of output po is an instance of an open known finding.
+// excused reports whether problem p of output po is an instance of an open known finding:
+// every case is (trigger region of the finding) AND (its failure signature).
 func excused(rec *ev.Rec, f protoFlags, po *protoOut, p problem) bool {
 	rel, line := problemLine(po, p)
+	raw := po.Raw[rel]
+	q := quotedRE.FindAllStringSubmatch(p.Msg, -1) // quoted parts of the message, in order
+	qs := func(i int) string {
+		if i < len(q) {
+			return q[i][1]
+		}
+		return ""
+	}
+	enumRef := f.PackageName + "." + f.EnumPackage + "."
 	switch {
-	case p.Class == "link:unresolved" && strings.Contains(p.Msg, "option (yext.leaflist") && strings.Contains(p.Msg, "not imported"):
-		// trigger: -add_schemapaths=false and the file has no yext import; signature: the
-		// leaf-list annotation refers to the extension of the file that is not imported
-		return rec.Excuse(fYextImport, !f.SchemaPaths && rel != "" && !strings.Contains(po.Raw[rel], "/yext.proto\";"))
-	case (strings.HasPrefix(p.Class, "parse:syntax") || p.Class == "link:unresolved") && protoLeadKeywords.MatchString(line):
+	// F41: -add_schemapaths=false; the leaf-list annotation is used in a file without yext import
+	case p.Class == "link:unresolved" && strings.Contains(p.Msg, "option (yext.leaflist"):
+		return rec.Excuse(fYextImport, !f.SchemaPaths && rel != "" && !strings.Contains(raw, "/yext.proto\";"))
+
+	// F42: a type reference that starts with a protobuf keyword
+	case (p.Class == "parse:syntax" || p.Class == "link:unresolved") && protoLeadKeywords.MatchString(line):
 		return rec.Excuse(fKeywordPkg, true)
+
+	// F43: anydata field, any.proto import dropped
 	case p.Class == "link:unresolved" && strings.Contains(p.Msg, `type "google.protobuf.Any" is not defined`):
-		return rec.Excuse(fAnyImport, rel != "" && !strings.Contains(po.Raw[rel], `import "google/protobuf/any.proto";`))
-	case strings.Contains(f.PackageName, ".") && p.Class == "link:unresolved" && strings.Contains(p.Msg, `type "`+f.PackageName+"."+f.EnumPackage+"."):
-		// trigger: dotted -package_name and a global enum; signature: the enums file is written to
-		// "<a.b>/<enums>/<enums>.proto" but looked for (and, with nested messages, not even
-		// imported) as "<a/b>/<enums>/<enums>.proto"
+		return rec.Excuse(fAnyImport, rel != "" && !strings.Contains(raw, `import "google/protobuf/any.proto";`))
+
+	// F45: dotted -package_name, global enums file written to / looked up under different paths
+	case strings.Contains(f.PackageName, ".") && p.Class == "link:unresolved" && strings.HasPrefix(qs(0), enumRef):
 		return rec.Excuse(fDottedPkg, strings.Contains(p.Msg, "not imported"))
 	case strings.Contains(f.PackageName, ".") && p.Class == "link:import" &&
-		strings.Contains(p.Msg, filepath.Join(strings.ReplaceAll(f.PackageName, ".", "/"), f.EnumPackage, f.EnumPackage+".proto")+"\" not found"):
+		strings.HasSuffix(qs(0), filepath.Join(strings.ReplaceAll(f.PackageName, ".", "/"), f.EnumPackage, f.EnumPackage+".proto")):
 		return rec.Excuse(fDottedPkg, true)
-	case p.Class == "link:import" && strings.Contains(p.Msg, "/"+f.EnumPackage+".proto\" not found"):
-		// the same defect when the singleton union is the only "global" enum user: the enums
-		// file is imported but never written
-		for _, l := range strings.Split(po.Raw[relOf(po, p)], "\n") {
+
+	// F44 / F54: the enums file is imported but was never written
+	case p.Class == "link:import" && strings.HasSuffix(qs(0), "/"+f.EnumPackage+"/"+f.EnumPackage+".proto") && strings.HasSuffix(p.Msg, "not found"):
+		if strings.Contains(raw, enumRef) {
+			return false // a real reference to a global enum: not one of the two spurious-import defects
+		}
+		for _, l := range strings.Split(raw, "\n") {
 			if m := singletonEnumRE.FindStringSubmatch(l); m != nil && strings.TrimRight(m[1], "_") == yang.CamelCase(m[2])+"Enum" {
 				return rec.Excuse(fSingletonEnum, true)
 			}
 		}
-		return false
+		// F54: a union member of type ywrapper.Decimal64Value is mistaken for a global enum
+		return rec.Excuse(fDecimalImport, strings.Contains(raw, "ywrapper.Decimal64Value ") && strings.Contains(raw, "_decimal64value = "))
+
+	// F47: YANG enum value < -1 is emitted before the zero value
+	case p.Class == "link:syntax" && negFirstRE.MatchString(p.Msg):
+		return rec.Excuse(fNegativeEnum, true)
+
+	// F46: enum members equal ignoring case (protoc: conflict after prefix stripping in proto3)
+	case p.Class == "link:protodesc" && strings.Contains(p.Msg, "using open semantics has conflict"):
+		return rec.Excuse(fEnumCase, strings.EqualFold(qs(1), qs(2)))
+
+	// F48: enum value names equal after sanitising / equal to the synthetic UNSET
+	case p.Class == "dup-enum-name":
+		return rec.Excuse(fEnumNameDup, true)
+
+	// F49: sibling fields with the same default JSON name
+	case p.Class == "link:json-name":
+		return rec.Excuse(fJSONName, true)
+
+	// F50: -package_hierarchy, a directory whose package component equals its message name
+	case p.Class == "link:duplicate-symbol" && strings.Contains(p.Msg, "(message) is already defined as package in file"):
+		name := lastComponent(qs(0))
+		return rec.Excuse(fPkgMsgClash, f.Hierarchy && strings.HasSuffix(qs(1), "/"+name+"/"+name+".proto"))
+
+	// F51: nested message/enum name equals a sibling field name
+	case p.Class == "link:duplicate-symbol" && (strings.Contains(p.Msg, "(message) is already defined as field") || strings.Contains(p.Msg, "(enum) is already defined as field") ||
+		strings.Contains(p.Msg, "(enum) is already defined as message")):
+		return rec.Excuse(fTypeVsField, true)
+
 	case p.Class == "link:unresolved" && strings.Contains(p.Msg, "type \""):
-		// trigger: a plain (non-oneof) field whose type is <CamelCase(field)>Enum, the name
-		// protogen gives the enum of a union with a single enumeration member; signature: that
-		// enum is never emitted
-		m := singletonEnumRE.FindStringSubmatch(line)
-		if m == nil || !strings.Contains(p.Msg, `type "`+m[1]+`" is not defined`) {
+		typ, scope := qs(0), qs(1)
+		m := plainFieldRE.FindStringSubmatch(line)
+		switch {
+		// F53: enum-typed list key in a nested key message, enums import lost
+		case strings.HasPrefix(typ, enumRef) && strings.HasSuffix(scope, "Key"):
+			return rec.Excuse(fKeyEnumImport, !f.Hierarchy && !strings.Contains(raw, "/"+f.EnumPackage+"/"+f.EnumPackage+".proto\";"))
+		// F55: -compress_paths -package_hierarchy, top-level nodes of a second module are put
+		// into package "<base>._" but referenced as if they were in "<base>"
+		case f.Compress && f.Hierarchy && !strings.Contains(typ, ".") && underscorePkgDefines(po, f, typ):
+			return rec.Excuse(fRootPkgUnique, true)
+		// F52: top-level list under the fake root: "<List> <list> = N;" inside <FakeRoot>.<List>Key
+		case m != nil && f.FakeRoot && !strings.Contains(typ, ".") && lastComponent(scope) == typ+"Key" && m[1] == typ &&
+			strings.HasSuffix(strings.TrimSuffix(scope, "."+typ+"Key"), yang.CamelCase(f.FakeRootName)):
+			return rec.Excuse(fRootList, true)
+		}
+		// F44: plain field of type <CamelCase(field)>Enum (union with a single enumeration member)
+		sm := singletonEnumRE.FindStringSubmatch(line)
+		if sm == nil || typ != sm[1] {
 			return false
 		}
-		want := yang.CamelCase(m[2]) + "Enum"
-		return rec.Excuse(fSingletonEnum, strings.TrimRight(m[1], "_") == strings.TrimRight(want, "_"))
+		return rec.Excuse(fSingletonEnum, strings.TrimRight(sm[1], "_") == strings.TrimRight(yang.CamelCase(sm[2])+"Enum", "_"))
 	}
 	return false
 }
@@ -519,9 +608,5 @@ func TestC28_Random(t *testing.T) {
 		}
 	}
 }
-
-// c28ExcludedClasses are yanggen collision classes that are not drawn because a known finding
-// already covers them (the draws are counted in the evidence).
-var c28ExcludedClasses = map[string]bool{}
 
 var _ = sort.Strings
